@@ -113,6 +113,12 @@ CLAIMED["C11"] = ("exploration",
     "Trusted: the Go race detector (sees only executed interleavings; evidence reports overlap counts and goroutine ids). Races in memory owned by the trie library are outside the property.",
     "DESIGN.md §7 C11")
 
+CLAIMED["C17"] = ("exploration",
+    "recorded-history checker: client-boundary call/return logs of concurrent update/observe/cancel/hang-up clients judged offline by a sequential model (append-style unique ids) and cross-checked with porcupine; blocked-forever probe for unanswered requests; race build",
+    "Histories of 2-6 concurrent clients (10-40 operations: succeeding/failing/panicking updates, observers with succeeding/failing expressions or failing onupdate, cancel, cancel again, hang-up, kill) are driven against the Go engine API in-process (2.2k histories quick) and against the real `arrai serve` process through gRPC clients, websocket observers and the CLI; every update appends a unique id, so each observed state spells out the total order. The pure oracle (re-run offline on the forwarded history) judges: every update answered (logical hang probe otherwise), update results, final state = exactly the acknowledged ids once, real-time order, and each observer's sequence = its expression on consecutive states from its subscription point (no gap, duplicate, stale, stray); porcupine cross-checks the update/initial-observe register history (timeout => inconclusive). Runs under -race.",
+    "Trusted: the client-side recorder (one atomic logical clock), the 20-line sequential model, porcupine. 'Exactly one onclose' is not judged (the statement leaves it open). For observers cut on the wire only consecutiveness is judged.",
+    "DESIGN.md §7 C17")
+
 NOT_YET = "check not built yet in this session (planned, see DESIGN.md §7/§12); will be claimed once its monitor is silent on the unchanged tree and catches seeded breaks"
 
 def main():
